@@ -93,8 +93,8 @@ func c13OutDeg(g *c13Graph, s int) int {
 }
 
 // VerifC13_DijkstraFromTo: point to point Dijkstra (early exit at the target),
-// every pair including s == t. OPEN VIOLATION on the unchanged tree: for
-// s == t with a source without out-edges (nil, +Inf) is returned, see notes.
+// every pair including s == t. Found F-C13-2 (s == t with a source without
+// out-edges returned (nil, +Inf)), fixed in /repo commit 459fbf6.
 func VerifC13_DijkstraFromTo() {
 	c13DijkstraFromTo(true)
 }
@@ -211,6 +211,112 @@ func VerifC13_Yen() {
 			if k < 0 || len(got) < k {
 				verifAssert(w > d+cost, "Yen: fewer than k paths only when the others exceed the cost bound")
 			}
+		}
+	}
+	verifReach("end")
+}
+
+// c13LongList: graphs with 5-6 nodes whose cheapest s -> t route can be a long
+// chain (Yen's spur/root bookkeeping only gets interesting for paths of five
+// and more nodes). s = node 0, t = the last node.
+var c13LongList = [][][2]int{
+	// 0: 6-node ladder: chain 0-1-2-3-4-5 plus the shortcuts i -> i+2 (8 simple paths 0 -> 5)
+	{{0, 1}, {1, 2}, {2, 3}, {3, 4}, {4, 5}, {0, 2}, {1, 3}, {2, 4}, {3, 5}},
+	// 1: 5-node chain plus shortcuts 0->2, 1->3, 2->4, 0->3
+	{{0, 1}, {1, 2}, {2, 3}, {3, 4}, {0, 2}, {1, 3}, {2, 4}, {0, 3}},
+	// 2: 6-node chain plus one long shortcut and a back arc
+	{{0, 1}, {1, 2}, {2, 3}, {3, 4}, {4, 5}, {0, 4}, {1, 5}, {3, 1}},
+}
+
+var c13LongN = []int{6, 5, 6}
+
+// c13LongWeights: stated concrete weight vectors (chain arcs first): cheap
+// chain / expensive shortcuts (the best path is the whole chain), all equal
+// (many ties), shortcut = two chain arcs (ties between chain and shortcut),
+// increasing, decreasing.
+func c13LongWeight(vec, e, nchain int) float64 {
+	switch vec {
+	case 0:
+		if e < nchain {
+			return 1
+		}
+		return 5
+	case 1:
+		return 1
+	case 2:
+		if e < nchain {
+			return 1
+		}
+		return 2
+	case 3:
+		return float64(1 + e)
+	default:
+		return float64(12 - e)
+	}
+}
+
+// VerifC13_YenLong: Yen's k shortest paths on the 5-6 node list, k = 4..6,
+// unbounded cost: loopless real paths, distinct, non-decreasing weights, no
+// omitted path cheaper than the last returned one, and fewer than k paths only
+// if there are no more simple paths. Weights: symbolic positive reals
+// (ylw=0) or the stated concrete vectors (ylw=1).
+func VerifC13_YenLong() {
+	gi := verifChoose("long", verifParam("longlo", 0), verifParam("longhi", len(c13LongList)-1))
+	n := c13LongN[gi]
+	g := c13New(n)
+	nchain := n - 1
+	symbolic := verifParam("ylw", 1) == 0
+	vec := 0
+	if !symbolic {
+		vec = verifChoose("wvec", 0, 4)
+	}
+	for e, a := range c13LongList[gi] {
+		g.adj[a[0]][a[1]] = true
+		if symbolic {
+			w := verifFloat(c13Name("w", a[0], a[1]))
+			verifAssume(w > 0)
+			g.w[a[0]][a[1]] = w
+		} else {
+			g.w[a[0]][a[1]] = c13LongWeight(vec, e, nchain)
+		}
+	}
+	s, t := 0, n-1
+	k := verifChoose("k", verifParam("klo", 4), verifParam("khi", 6))
+	got := path.YenKShortestPaths(g, k, math.Inf(1), c13Node(c13IDs[s]), c13Node(c13IDs[t]))
+	all := c13SimplePaths(g, s, t)
+	verifAssert(len(got) <= k, "YenLong: at most k paths")
+	want := k
+	if len(all) < k {
+		want = len(all)
+	}
+	verifAssert(len(got) == want, "YenLong: min(k, number of simple paths) paths are returned")
+	used := make([]int, len(all))
+	ws := make([]float64, len(got))
+	for r, gp := range got {
+		found := false
+		for q, p := range all {
+			if c13SameSeq(gp, p) {
+				used[q]++
+				found = true
+				ws[r] = c13PathWeight(g, p)
+			}
+		}
+		verifAssert(found, "YenLong: every returned path is a loopless path from s to t in g")
+		if !found {
+			return
+		}
+		if r > 0 {
+			verifAssert(ws[r-1] <= ws[r], "YenLong: paths are in non-decreasing weight order")
+		}
+	}
+	if len(got) == 0 {
+		return
+	}
+	last := ws[len(got)-1]
+	for q, p := range all {
+		verifAssert(used[q] <= 1, "YenLong: returned paths are distinct")
+		if used[q] == 0 {
+			verifAssert(c13PathWeight(g, p) >= last, "YenLong: no omitted path is cheaper than a returned one")
 		}
 	}
 	verifReach("end")
